@@ -36,7 +36,7 @@ def cases(draw, tier="quick"):
             p = draw(st.sampled_from(ps))
             p = p.swapcase() if mode == 0 else (p[:-1] if draw(st.booleans()) else p + draw(st.sampled_from(alpha)))
         elif mode == 2:
-            p = draw(st.text(st.sampled_from(alpha), max_size=3))
+            p = draw(S.txt(alpha, max_size=3))
         else:
             p = draw(st.text(S.UNICODE, max_size=3))
         prefixes.append(p)
